@@ -207,7 +207,7 @@ def exhaustive_small(W=2, cap=None, nev=4, steps=(0, 1, 3)):
 
 
 # ------------------------------------------------------------------ Engine path (join programs)
-ENGINE_WINDOWS = [("100ms", 100), ("500ms", 500), ("2s", 2000), ("1m", 60000)]
+ENGINE_WINDOWS = [("100ms", 100), ("500ms", 500), ("2s", 2000), ("1m", 60000), ("", 60000)]      # "" = no .window(): the engine defaults to 1 minute
 
 
 def gen_engine_case(rng, maxlen=12):
@@ -238,7 +238,8 @@ def engine_program(c):
     lines = ["stream S%d = T%d" % (i, i) for i in range(n)]
     on = " and ".join("S%d.f0 == S%d.f0" % (i, i + 1) for i in range(n - 1))
     emit = ", ".join("id%d: S%d.f%d" % (i, i, IDF) for i in range(n))
-    lines.append("stream J = join(%s)\n    .on(%s)\n    .window(%s)\n    .emit(%s)" % (", ".join("S%d" % i for i in range(n)), on, c["wname"], emit))
+    win = "\n    .window(%s)" % c["wname"] if c["wname"] else ""
+    lines.append("stream J = join(%s)\n    .on(%s)%s\n    .emit(%s)" % (", ".join("S%d" % i for i in range(n)), on, win, emit))
     return "\n".join(lines) + "\n"
 
 
